@@ -26,7 +26,14 @@ func init() {
 	// and checks every REMOTE record against the line it claims to be: source i, line k is
 	// "src=<i> n=<k> " padded with the letter of its source to its length.  Result per source:
 	// "<i>=1..n" when exactly the lines 1..n arrived in order and intact, else what went wrong.
-	ops["c07.pipe"] = func(a []string) string {
+	// c07.grep <bufLen> <sources> <mod 2|5> : the same with grep readers and an expression that selects the lines whose
+	// number is a multiple of mod ("n=…[05] "): each delivered record must still carry the line's number IN THE FILE
+	ops["c07.grep"] = func(a []string) string { return c07pipe(a, atoi(a[2])) }
+	ops["c07.pipe"] = func(a []string) string { return c07pipe(a, 0) }
+}
+
+func c07pipe(a []string, mod int) string {
+	{
 		bufLen := atoi(a[0])
 		config.Server.MaxLineLength = 1 << 20
 		dir, err := os.MkdirTemp(os.Getenv("VERIF_WORK"), "c07p-")
@@ -71,7 +78,15 @@ func init() {
 			go func(i int, s src) {
 				defer wg.Done()
 				reader := fs.NewCatFile(s.path, fmt.Sprintf("id%d", i), sh.VerifServerMessages())
-				reader.Start(ctx, lcontext.LContext{}, sh.VerifLines(), regex.NewNoop())
+				re := regex.NewNoop()
+				if mod > 0 {
+					digits := map[int]string{2: "02468", 5: "05"}[mod]
+					var err error
+					if re, err = regex.New("n=[0-9]*["+digits+"] ", regex.Default); err != nil {
+						panic(err)
+					}
+				}
+				reader.Start(ctx, lcontext.LContext{}, sh.VerifLines(), re)
 			}(i, s)
 		}
 		done := make(chan struct{})
@@ -99,7 +114,7 @@ func init() {
 			}
 			want := lineOf(i, k, srcs[i].ll+k%3) + "\n"
 			switch {
-			case k != next[i]+1:
+			case (mod == 0 && k != next[i]+1) || (mod > 0 && (k%mod != 0 || k != next[i]+mod)):
 				bad[i] = fmt.Sprintf("ORDER(%d after %d)", k, next[i])
 			case p[5] != want:
 				d := 0
